@@ -22,8 +22,8 @@ class C10 : public Check
 public:
     const char *id() { return "C10"; }
     const char *opName(int k) { return fName(k); }
-    int quickRuns() { return 5000; }
-    int quickSeconds() { return 60; }
+    int quickRuns() { return 60000; }
+    int quickSeconds() { return 90; }
     int thoroughSeconds() { return 900; }
     const char *rule()
     {
@@ -50,7 +50,7 @@ public:
             case F_NOTE_ON: o.a[0] = ch; o.a[1] = r.chance(0.8) ? (int64_t)r.below(128) : (int64_t)r.pick<int>({ 0, 1, 11, 12, 115, 116, 126, 127 }); o.a[2] = (int64_t)r.range(1, 127); break;
             case F_NOTE_OFF: o.a[0] = ch; o.a[1] = (int64_t)r.below(1000); break;
             case F_BEND: o.a[0] = ch; o.a[1] = r.chance(0.5) ? (int64_t)r.pick<int>({ 0, 1, 8191, 8192, 8193, 16382, 16383, 4096, 12288 }) : (int64_t)r.below(16384); break;
-            case F_RANGE: o.a[0] = ch; o.a[1] = (int64_t)r.pick<int>({ 0, 1, 2, 2, 7, 12, 24, 48, 127 }); o.a[2] = thorough && r.chance(0.3) ? (int64_t)r.below(100) : 0; break;
+            case F_RANGE: o.a[0] = ch; o.a[1] = (int64_t)r.pick<int>({ 0, 1, 2, 2, 7, 12, 24, 48, 127 }); o.a[2] = r.chance(0.35) ? (int64_t)r.below(100) : 0; break;
             case F_PATCH: o.a[0] = ch; o.a[1] = (int64_t)r.below(128); break;
             case F_TICK: o.d = r.pick<double>({ 0.0, 0.01, 0.05, 0.3 }); break;
             case F_VIBRATO: o.a[0] = ch; o.a[1] = (int64_t)r.pick<int>({ 0, 0, 1, 64, 127 }); o.a[2] = (int64_t)r.below(2); break;
